@@ -42,6 +42,8 @@ def routeJson (gs : List (List Char)) (h : List Char) : Json :=
     let noHost := h.isEmpty
     Json.mkObj [
       ("r", "route"),
+      -- the generated `domain_router()` inserts exactly `patterns`, numbered in this order (the model has one pattern list)
+      ("emitted", true),
       ("verdicts", Json.arr (o.verdicts.map (fun v => match v with
         | .ok () => ("ok" : Json) | .error e => (errKind e : Json))).toArray),
       ("order", Json.arr (o.order.map str).toArray),
